@@ -61,4 +61,20 @@ def holdsVorg (typoAsc : Int) (gs : List G) (v : Vorg) : Bool :=
   (vs.isEmpty || (vs.contains v.default && vs.all (fun x => decide (countOf x vs ≤ countOf v.default vs)))) &&
   v.records == gs.filterMap (fun g => if vertOrigin typoAsc g == v.default then none else some (g.name, vertOrigin typoAsc g))
 
+/-- how a CFF reader obtains the advance of a glyph (Adobe TN 5176/5177; fontTools `T2WidthExtractor`):
+    an operator absent from the Private dict has the value 0; a charstring without width operand has
+    advance defaultWidthX, otherwise nominalWidthX + operand -/
+def readCffWidth (p : PrivW) : Option Int → Int
+  | none => p.defaultWidthX.getD 0
+  | some e => p.nominalWidthX.getD 0 + e
+
+/-- the advances stored in the 'CFF ' table (Private dict + charstrings) are, glyph by glyph, the
+    rounded source advances -- i.e. exactly the advances of hmtx (`holdsHmtx`) -/
+def holdsCffWidths (gs : List G) (c : CffW) : Bool :=
+  c.cs.map (readCffWidth c.priv) == gs.map (fun g => otRound g.width)
+
+/-- the same statement between two observed tables: CFF advances = hmtx advances -/
+def holdsCffVsHmtx (hm : List (Int × Int)) (c : CffW) : Bool :=
+  c.cs.map (readCffWidth c.priv) == hm.map (·.1)
+
 end Ufo2ft.C04
